@@ -229,14 +229,17 @@ class ConnWorld:
             sealed = False
             pt = raw[20:20 + length]
         ms = []
-        if count == 1:
-            ms.append((struct.unpack(">H", pt[:2])[0], typ, pt[2:]))
-        elif count > 1:
-            p = pt
-            for _ in range(count):
-                ln, sq, ty = struct.unpack(">HHB", p[:5])
-                ms.append((sq, ty, p[5:5 + ln]))
-                p = p[5 + ln:]
+        try:
+            if count == 1:
+                ms.append((struct.unpack(">H", pt[:2])[0], typ, pt[2:]))
+            elif count > 1:
+                p = pt
+                for _ in range(count):
+                    ln, sq, ty = struct.unpack(">HHB", p[:5])
+                    ms.append((sq, ty, p[5:5 + ln]))
+                    p = p[5 + ln:]
+        except struct.error:
+            ms = []            # not readable by the independent reader (e.g. not sealed the way the property says): the seal clauses report it
         bits = [d for d in range(1, 33) if ack_bits & (0x80000000 >> (d - 1))]
         return dict(magic=magic, ctime=ctime, dseq=seq, ack=ack, type=typ, length=length, count=count, ackbits=bits, sealed=sealed,
                     ptlen=len(pt)), ms
